@@ -164,6 +164,7 @@ struct State {
     known_hits: BTreeMap<String, u64>,
     known_printed: HashSet<String>,
     violations: Vec<(String, String)>, // (signature, replay path)
+    repeat_violations: BTreeMap<String, u64>,
     notes: BTreeMap<String, Value>,
     subs: BTreeMap<String, SubStats>,
     assumptions: Vec<String>,
@@ -411,6 +412,16 @@ impl Ctx {
     }
 
     fn report_violation(&self, sub: &str, choices: Option<&[u32]>, payload: Option<&Value>, f: &Failure) {
+        {
+            // one report per root cause: further hits are only counted
+            let mut st = self.state.lock().unwrap();
+            if st.violations.iter().any(|(s, _)| s == &f.signature) {
+                st.evaluations += 1;
+                st.subs.entry(sub.to_string()).or_default().evaluations += 1;
+                *st.repeat_violations.entry(f.signature.clone()).or_insert(0) += 1;
+                return;
+            }
+        }
         let p = self.write_replay(sub, choices, payload, f);
         println!("--- violation in {} / {} ---", self.id, sub);
         println!("signature: {}", f.signature);
@@ -649,6 +660,56 @@ impl Ctx {
         });
     }
 
+    /// Hand-written / recorded cases identified by a JSON payload instead of a
+    /// choice vector: replays `--replay FILE` if it is for `sub`, otherwise
+    /// re-runs the reproducer of every listed finding whose replay file is for
+    /// `sub` (prints its KNOWN-FINDING line, or a VIOLATION if a fixed one is back).
+    pub fn run_payloads<F>(&self, sub: &str, f: F)
+    where
+        F: Fn(&Value) -> Outcome,
+    {
+        if self.replay_mode() {
+            if let Some(v) = self.replay_for(sub)
+                && let Some(payload) = v.get("payload")
+                && !payload.is_null()
+            {
+                match f(payload) {
+                    Outcome::Pass(info) => {
+                        println!("replay: PASS ({} / {})", self.id, sub);
+                        self.account_pass(sub, &info);
+                    }
+                    Outcome::Skip(r) => {
+                        println!("replay: SKIP {r}");
+                        self.account_skip(sub, &r);
+                    }
+                    Outcome::Fail(fl) => self.report_violation(sub, None, Some(payload), &fl),
+                }
+            }
+            return;
+        }
+        for k in self.findings.iter().filter(|k| k.replay.is_some()) {
+            let path = format!("{VERIF_ROOT}/{}", k.replay.as_ref().unwrap());
+            let Ok(text) = std::fs::read_to_string(&path) else {
+                println!("note: reproducer {path} of finding {} is missing", k.key);
+                continue;
+            };
+            let Ok(v) = serde_json::from_str::<Value>(&text) else {
+                continue;
+            };
+            if v.get("sub").and_then(|s| s.as_str()) != Some(sub) {
+                continue;
+            }
+            let Some(payload) = v.get("payload") else {
+                continue;
+            };
+            if payload.is_null() {
+                continue;
+            }
+            let out = f(payload);
+            self.finding_replay_result(sub, k, out, None, Some(payload));
+        }
+    }
+
     /// Result of re-running the reproducer of a listed finding.
     pub fn finding_replay_result(
         &self,
@@ -710,6 +771,12 @@ impl Ctx {
         coverage.insert("skipped".into(), json!(st.skipped));
         coverage.insert("known_finding_hits".into(), json!(st.known_hits));
         coverage.insert("sub_checks".into(), json!(subs));
+        if !st.violations.is_empty() {
+            coverage.insert(
+                "violation_signatures".into(),
+                json!(st.violations.iter().map(|(s, p)| json!({"signature": s, "replay": p, "further_hits": st.repeat_violations.get(s).copied().unwrap_or(0)})).collect::<Vec<_>>()),
+            );
+        }
         if let Some(e) = st.exhaustive {
             coverage.insert("exhaustive".into(), json!(e));
         }
